@@ -26,7 +26,7 @@ THOROUGH_SCALE = 3
 
 def plan(tier):
     q = tier == 'quick'
-    return [('hashseed', 14 if q else 150, {}), ('history', 60 if q else 1200, {}), ('volstr', 300 if q else 5000, {})]
+    return [('hashseed', 14 if q else 150, {}), ('history', 110 if q else 1200, {}), ('volstr', 300 if q else 5000, {})]
 
 
 def search_plan(tier, disagreements):
@@ -86,10 +86,10 @@ def sibling(d, rng):
             continue
         leaves = D.expr_leaves(c.expr)
         m = rng.random()
-        if m < 0.45 and leaves:
+        if m < 0.6 and leaves:
             extra = rng.choice(leaves)
             c.expr = ('i', c.expr, extra) if rng.random() < 0.5 else ('u', ('i', c.expr, extra), ('i', c.expr, rng.choice(leaves)))
-        elif m < 0.65 and leaves:
+        elif m < 0.9 and leaves:
             c.expr = rng.choice(leaves)
         if c.rho is not None and rng.random() < 0.5:
             c.rho = rng.choice(['-3.25', '0.0625', '-11.5'])
@@ -164,6 +164,14 @@ def run_case(stream, seed, ctx, params):
                     sample={'deck': text[:300]}, failures=fails)
     # history stream
     path_hash_before = hashlib.sha1(text.encode()).hexdigest()
+    sib_first = seed % 2 == 0
+    if sib_first:
+        # a sibling of B converted BEFORE B: whatever a conversion memoises under B's numbers (and would keep when B
+        # comes first) is then stale for B's first conversion, which is compared with a fresh process below
+        try:
+            impl.convert(D.render_deck(sibling(d, rng), D.Layout(rng)), args, name='sibling')
+        except Exception:  # noqa
+            pass
     r1 = impl.convert(text, args, name='deckB')
     inp = os.path.join(impl.scratch_dir(), 'deckB.imcnp')
     on_disk = hashlib.sha1(open(inp, 'rb').read()).hexdigest()
@@ -195,7 +203,7 @@ def run_case(stream, seed, ctx, params):
                           % (len(others), diff), {'stream': 'history', 'class': 'history-dependent'},
                           dict(replay, others=others)))
     # this worker process has a long history of earlier conversions: compare with a fresh interpreter now and then
-    if seed % 6 == 0 and r1.ok:
+    if (seed % 6 == 0 or sib_first) and r1.ok:
         f = strip_header(fresh(text, args, 0))
         if not f.startswith('SUBPROCESS FAILED') and f != a:
             diff = [(x, y) for x, y in zip(f.splitlines(), a.splitlines()) if x != y][:2] or [('length', len(f), len(a))]
